@@ -152,6 +152,36 @@ func pairs(ps []uint64, hh []u.Hash) string {
 	}
 	return strings.Join(s, ",")
 }
+// pairsCanon is pairs with entries of EQUAL position put in a canonical order (by hash): Go's sort is unstable, so
+// their relative order carries no information (equal positions only occur for garbage additions).
+func pairsCanon(ps []uint64, hh []u.Hash) string {
+	type ent struct {
+		p uint64
+		h u.Hash
+	}
+	var out []ent
+	used := make([]bool, len(ps))
+	for i := range ps {
+		if used[i] {
+			continue
+		}
+		var grp []ent
+		for j := i; j < len(ps); j++ {
+			if !used[j] && ps[j] == ps[i] {
+				grp = append(grp, ent{ps[j], hh[j]})
+				used[j] = true
+			}
+		}
+		sort.Slice(grp, func(a, b int) bool { return hx(grp[a].h) < hx(grp[b].h) })
+		out = append(out, grp...)
+	}
+	p2 := make([]uint64, len(out))
+	h2 := make([]u.Hash, len(out))
+	for i, e := range out {
+		p2[i], h2[i] = e.p, e.h
+	}
+	return pairs(p2, h2)
+}
 func b01(b bool) string {
 	if b {
 		return "1"
